@@ -571,6 +571,15 @@ func (g *gen) callContract(x *ssa.Call, fc *FuncContract, name string, args []Va
 	if x.Type() != nil && !isEmptyTuple(x.Type()) {
 		rv := g.havocVal(x.Name(), x.Type(), st, reach)
 		g.vals[x] = rv
+		if name == "fmt.Sprintf" && len(args) > 0 {
+			// remember the constant format a string was built from (used by sqlstarts)
+			if lit, whole, ok := g.stringOrigin(args[0].T); ok && whole {
+				if g.sprintfOrigin == nil {
+					g.sprintfOrigin = map[string]string{}
+				}
+				g.sprintfOrigin[rv.T] = lit
+			}
+		}
 		if tt, ok := x.Type().(*types.Tuple); ok {
 			for i := 0; i < tt.Len(); i++ {
 				results = append(results, Val{T: fmt.Sprintf("(%s..%d %s)", rv.S, i, rv.T), S: g.ctx.sortOf(tt.At(i).Type()), GoT: tt.At(i).Type()})
